@@ -16,4 +16,19 @@ TEXT = {
   "level_text": "Exploration: random nested if/elseif/else, for/else and set programs over lists, ranges, strings (multi-byte), one-entry maps, nested lists and empty/undefined sequences compared byte-for-byte with a reference interpreter; the truthiness table x every branching construct, all seven loop counters at every position for lengths 0..14 (lists, strings, ranges), a 9x9x8 grid of range(start,end,step) and outer counters after inner loops are enumerated exhaustively.",
   "level_note": "Trusted: reference interpreter harness/stmt.go. Not covered: reading loop variables after their loop (no rule), iteration order of maps with more than one entry (C03).",
  },
+ "C04": {
+  "technique": "property-based testing (rapid byte-level segment generator) + exhaustive byte/byte-pair placement enumeration; oracle = concatenation of literal segments computed by the harness, spy invocation count, context-independence of verbatim bodies",
+  "level_text": "Exploration: templates built from literal text over all 256 byte values, prints of known values, comments and verbatim bodies seeded with code that must not run, below and above the 4096-byte tokenizer switch, compared byte-for-byte with the harness's own concatenation; every byte value and every pair of 16 hostile bytes before/between/after three tag kinds enumerated exhaustively in both size classes.",
+  "level_note": "Excluded by construction and counted: text that contains an opening delimiter, or ends in '{' or '\\' directly before a tag (the statement does not say how '{{{' and the tokenizer's backslash escape read). Verbatim bodies containing tag syntax are checked for context-independence, not byte equality (as the statement says).",
+ },
+ "C13": {
+  "technique": "property-based testing (rapid) + exhaustive per-tag-kind/per-side enumeration; oracle = metamorphic relation dashed template vs hand-trimmed dash-free template",
+  "level_text": "Exploration: random control-flow programs with whitespace-rich text and random subsets of dashed delimiters compared with the same program without dashes and with the adjacent whitespace deleted by the harness (output and parse success); every tag kind (print, if/elseif/else/endif, for/else/endfor, set, do, block, apply, spaceless, verbatim, include, macro, import, from, extends) x each delimiter x {left, right, both} enumerated exhaustively.",
+  "level_note": "Assumes a dash affects only the adjacent text segment (trimming does not continue past the next tag). The dash-free template's own meaning is tied to the reference model by C09-C12.",
+ },
+ "C14": {
+  "technique": "property-based testing (rapid) + exhaustive threshold enumeration; oracle = metamorphic relation padded template vs sentinel-marked unpadded template",
+  "level_text": "Exploration: control-flow programs (with and without dashes) padded at 1-3 insertion points with literal text of sizes straddling 4096 bytes up to 100 KB (thorough 300 KB) or with up to 400 comments (token thresholds 32/1000), compared with the unpadded rendering in which unique sentinels mark the insertion points; every tag-kind template x single-dash variant padded before/after to total lengths 4094..4099 and 8192 enumerated exhaustively.",
+  "level_note": "Padding has non-blank ends and contains no opening delimiter. Buffer/pool size classes are exercised through template and output sizes only (no hook into the pools).",
+ },
 }
